@@ -410,6 +410,9 @@ class ListOfDirectPredecessorsGetter(
     def map_loopy_call(self, expr: LoopyCall) -> list[ArrayOrNames]:
         return [ary for ary in expr.bindings.values() if isinstance(ary, Array)]
 
+    def map_named_array(self, expr: NamedArray) -> list[ArrayOrNames]:
+        return [expr._container]
+
     def map_loopy_call_result(self, expr: NamedArray) -> list[ArrayOrNames]:
         from pytato.loopy import LoopyCall, LoopyCallResult
         assert isinstance(expr, LoopyCallResult)
